@@ -71,6 +71,7 @@ type Out struct {
 	MetricsProgs  []*MProg            `json:"metrics_progs"`
 	MetricsFields map[string][]string `json:"metrics_fields"`
 	MetricsPublic map[string]map[string]string `json:"metrics_public"`
+	MetricsCallers []J `json:"metrics_callers"`
 	Accesses      []AccessSite        `json:"accesses"`
 	Cells         []CellInfo          `json:"cells"`
 	AccessNotes   []string            `json:"access_notes"`
@@ -133,6 +134,7 @@ func main() {
 	}
 	globals(prog, pkgs, out)
 	metricsProgs(byPath, out)
+	recordCallers(pkgs, out)
 	accesses(prog, pkgs, out)
 
 	b, _ := json.MarshalIndent(out, "", " ")
